@@ -32,7 +32,14 @@ func genRelatedRules(c *vs.Case, namespacedParent bool) ([]map[string]any, bool,
 			r["namespace"] = "ns1"
 			r["names"] = []any{"rel-a"}
 		case 6: // invalid mix
-			r["labelSelector"] = map[string]any{"matchLabels": map[string]any{"rel": "yes"}}
+			switch c.Int(3) {
+			case 0:
+				r["labelSelector"] = map[string]any{"matchLabels": map[string]any{"rel": "yes"}}
+			case 1:
+				r["labelSelector"] = map[string]any{} // present but empty is still a label selector
+			default:
+				r["labelSelector"] = map[string]any{"matchExpressions": []any{map[string]any{"key": "rel", "operator": "Exists"}}}
+			}
 			if c.Bool() {
 				r["names"] = []any{"rel-a"}
 			} else {
